@@ -110,9 +110,8 @@ Proof.
   intros loc maxlen suffix r r' H. unfold T.run_truncate in H.
   destruct (Z.of_nat (length (Template.get_field (T.r_fields r) loc)) >? maxlen + Z.of_nat (length suffix))%Z;
     [|inversion H; reflexivity].
-  destruct (Template.go_slice _ 0 maxlen) as [hd| |]; cbn in H; try discriminate.
-  destruct (TfUtf8.clean_utf8 hd) as [tr| |]; cbn in H; try discriminate.
-  destruct (TfUtf8.overwrite_n_truncate _ _ suffix) as [res| |]; cbn in H; try discriminate.
+  destruct (maxlen <? 0)%Z; [discriminate|].
+  destruct (TfUtf8.clean_utf8 _) as [tr| |]; cbn in H; try discriminate.
   inversion H; subst. apply nf_set.
 Qed.
 
@@ -570,7 +569,8 @@ Lemma process_parsed_total : forall cfg g c now clk r,
   config_ok cfg -> ginv cfg g -> cinv cfg g c ->
   exists g' c' res,
     process_parsed O cfg g c now clk r = Ok (g', c', res) /\
-    ginv cfg g' /\ cinv cfg g' c' /\ result_shape cfg res /\ res <> RDropParse /\ cs_input c' = cs_input c.
+    ginv cfg g' /\ cinv cfg g' c' /\ result_shape cfg res /\ res <> RDropParse /\
+    cs_input c' = match res with RDropExtract => pass_to_drop (cs_input c) (Ps.raw_length r) | _ => cs_input c end.
 Proof.
   intros cfg g c now clk r H Hg Hc. unfold process_parsed.
   destruct (place_ok (c_nfields cfg) (c_locs cfg) r (ok_locs cfg H)) as (fields & Ef & Lf). rewrite Ef. cbn [pbind].
@@ -601,8 +601,13 @@ Proof.
   - destruct Hc2 as (Cm2 & Cx2). split; cbn [g_route]; assumption.
   - destruct Hres as [->|(rec & streams & chunks & -> & Hsc)]; [exact I|]. exists rec. exact Hsc.
   - destruct Hres as [->|(rec & streams & chunks & -> & Hsc)]; discriminate.
-  - exact Ci.
+  - destruct Hres as [->|(rec & streams & chunks & -> & Hsc)]; exact Ci.
 Qed.
+
+(* a record dropped by an extraction: re-counted from passed to dropped (CountRecordPassToDrop) *)
+Definition counted_dropped_instead (c c' : Ps.counters) (len : nat) : Prop :=
+  (Ps.passed_n c' = Ps.passed_n c /\ Ps.passed_bytes c' = Ps.passed_bytes c /\
+   Ps.dropped_n c' = Ps.dropped_n c + 1 /\ Ps.dropped_bytes c' = Ps.dropped_bytes c + N.of_nat len)%N.
 
 Theorem process_record_total : forall cfg g c now clk input,
   config_ok cfg -> ginv cfg g -> cinv cfg g c ->
@@ -610,12 +615,14 @@ Theorem process_record_total : forall cfg g c now clk input,
     process_record O cfg g c now clk input = Ok (g', c', res) /\
     ginv cfg g' /\ cinv cfg g' c' /\ result_shape cfg res /\
     (* accounting of the input counters: a malformed record is counted dropped exactly once and changes nothing
-       else; every other record is counted passed exactly once *)
+       else; a record dropped by an extraction is counted dropped exactly once (not passed); every other record is
+       counted passed exactly once *)
     match res with
     | RDropParse =>
         fst (Ps.parse (c_parser cfg) (cs_input c) input) = Ok None /\
         SyslogSpec.counted_dropped (cs_input c) (cs_input c') (length input) /\
         g' = g /\ cs_extract c' = cs_extract c /\ cs_ecnt c' = cs_ecnt c /\ cs_local c' = cs_local c
+    | RDropExtract => counted_dropped_instead (cs_input c) (cs_input c') (length input) /\ g' = g
     | _ => SyslogSpec.counted_passed (cs_input c) (cs_input c') (length input)
     end.
 Proof.
@@ -625,10 +632,28 @@ Proof.
   2:{ (* malformed *)
     do 3 eexists. split; [reflexivity|]. split; [exact Hg|]. split; [exact Hc|]. split; [exact I|].
     cbn [fst with_input cs_input cs_extract cs_ecnt cs_local]. repeat split; try reflexivity; apply Hacc. }
-  destruct Hacc as (Hpass & _ & _).
+  destruct Hacc as (Hpass & Hraw & _).
   destruct (process_parsed_total cfg g (with_input c cnt') now clk r H Hg Hc) as (g' & c' & res & E & Hg' & Hc' & Hs & Hne & Hi).
   rewrite E. exists g', c', res. split; [reflexivity|]. split; [exact Hg'|]. split; [exact Hc'|]. split; [exact Hs|].
-  cbn [with_input cs_input] in Hi. rewrite Hi. destruct res; try exact Hpass. contradiction.
+  cbn [with_input cs_input] in Hi. rewrite Hi. destruct res; try exact Hpass; [contradiction|].
+  (* dropped by an extraction *)
+  split.
+  - destruct Hpass as (p1 & p2 & p3 & p4). unfold counted_dropped_instead, pass_to_drop. rewrite Hraw.
+    cbn [Ps.passed_n Ps.passed_bytes Ps.dropped_n Ps.dropped_bytes]. repeat split; lia.
+  - (* the shared state is untouched *)
+    unfold process_parsed in E.
+    destruct (place _ _ r) as [fields| |]; cbn [pbind] in E; try discriminate.
+    destruct (run_xtfs O _ _ _ _) as [[[[ex' ecnt'] p1] pass]| |]; cbn [pbind] in E; try discriminate.
+    destruct pass; cbn [negb] in E; [|inversion E; reflexivity].
+    destruct (extract_keys _ _) as [okeys| |]; cbn [pbind] in E; try discriminate.
+    destruct (get_or_create _ _ _ _) as [[[g1 c2] idx]| |]; cbn [pbind] in E; try discriminate.
+    destruct (nth_error _ _) as [pi|]; [|discriminate].
+    unfold worker_step in E.
+    destruct (extract_keys _ _) as [mk| |]; cbn [pbind] in E; try discriminate.
+    destruct (select_metric_key_set _ _ _) as [pi1| |]; cbn [pbind] in E; try discriminate.
+    destruct (run_xtfs O _ _ _ _) as [[[[t2 cn2] p2] pass2]| |]; cbn [pbind] in E; try discriminate.
+    destruct pass2; [|discriminate].
+    destruct (run_outputs _ _ _ _ _ _ _) as [[[pk st] ch]| |]; cbn [pbind] in E; discriminate.
 Qed.
 
 (* ---------- ... and for every sequence of records ---------- *)
@@ -710,10 +735,27 @@ Proof.
   destruct (new_pinsts cfg (skipn (length (g_pipes g)) (R.g_pipes rg))); reflexivity.
 Qed.
 
+(* what the worker answers is never one of the input-side verdicts *)
+Lemma worker_step_res : forall cfg pi idx clk p pi' res,
+  worker_step O cfg pi idx clk p = Ok (pi', res) -> res <> RDropExtract /\ res <> RDropParse.
+Proof.
+  intros cfg pi idx clk p pi' res E. unfold worker_step in E.
+  destruct (extract_keys _ _) as [mk| |]; cbn [pbind] in E; try discriminate.
+  destruct (select_metric_key_set _ _ _) as [pi1| |]; cbn [pbind] in E; try discriminate.
+  destruct (run_xtfs O _ _ _ _) as [[[[t2 cn2] p2] pass2]| |]; cbn [pbind] in E; try discriminate.
+  destruct pass2.
+  - destruct (run_outputs _ _ _ _ _ _ _) as [[[pk st] ch]| |]; cbn [pbind] in E; try discriminate.
+    inversion E; subst. split; discriminate.
+  - inversion E; subst. split; discriminate.
+Qed.
+
+(* everything behind the parser only carries the input counters along - except a DROP in the extractions, which
+   re-counts the record *)
 Lemma process_parsed_input : forall cfg g c now clk r cnt,
   process_parsed O cfg g (with_input c cnt) now clk r =
   match process_parsed O cfg g c now clk r with
-  | Ok (g', c', res) => Ok (g', with_input c' cnt, res)
+  | Ok (g', c', res) =>
+    Ok (g', with_input c' (match res with RDropExtract => pass_to_drop cnt (Ps.raw_length r) | _ => cnt end), res)
   | Err e => Err e
   | Panic s => Panic s
   end.
@@ -729,20 +771,29 @@ Proof.
   rewrite get_or_create_input.
   destruct (get_or_create cfg g _ okeys) as [[[g1 c2] idx]| |]; cbn [pbind]; try reflexivity.
   destruct (nth_error (g_pipes g1) idx) as [pi|]; [|reflexivity].
-  destruct (worker_step O cfg pi idx clk p1) as [[pi' res]| |]; reflexivity.
+  destruct (worker_step O cfg pi idx clk p1) as [[pi' res]| |] eqn:Ew; cbn [pbind]; try reflexivity.
+  destruct (worker_step_res _ _ _ _ _ _ _ Ew) as [Hne _]. destruct res; try reflexivity. contradiction.
 Qed.
+
+(* the input counters after one record, as a function of the counters before it, the record and its result *)
+Definition next_counters (cfg : config) (x : bytes) (res : rec_result) (cnt : Ps.counters) : Ps.counters :=
+  let p := Ps.parse (c_parser cfg) Ps.counters_zero x in
+  let cnt1 := ParserProofs.counters_add cnt (snd p) in
+  match res, fst p with
+  | RDropExtract, Ok (Some r) => pass_to_drop cnt1 (Ps.raw_length r)
+  | _, _ => cnt1
+  end.
 
 (* one record, on two connection states that differ in the input counters only *)
 Lemma process_record_input : forall cfg g c now clk x cnt, ParserProofs.cfg_ok (c_parser cfg) ->
   process_record O cfg g (with_input c cnt) now clk x =
   match process_record O cfg g c now clk x with
-  | Ok (g', c', res) =>
-    Ok (g', with_input c' (ParserProofs.counters_add cnt (snd (Ps.parse (c_parser cfg) Ps.counters_zero x))), res)
+  | Ok (g', c', res) => Ok (g', with_input c' (next_counters cfg x res cnt), res)
   | Err e => Err e
   | Panic s => Panic s
   end.
 Proof.
-  intros cfg g c now clk x cnt H. unfold process_record. cbn [with_input cs_input].
+  intros cfg g c now clk x cnt H. unfold process_record, next_counters. cbn [with_input cs_input].
   rewrite (parse_split cfg cnt x H), (parse_split cfg (cs_input c) x H).
   destruct (fst (Ps.parse (c_parser cfg) Ps.counters_zero x)) as [[r|]| |]; try reflexivity.
   set (d := snd (Ps.parse (c_parser cfg) Ps.counters_zero x)).
@@ -751,6 +802,16 @@ Proof.
   rewrite process_parsed_input.
   destruct (process_parsed O cfg g (with_input c (ParserProofs.counters_add (cs_input c) d)) now clk r) as [[[g' c'] res]| |];
     reflexivity.
+Qed.
+
+(* ... in particular the counters of the run itself *)
+Lemma process_record_counters : forall cfg g c now clk x g' c' res, ParserProofs.cfg_ok (c_parser cfg) ->
+  process_record O cfg g c now clk x = Ok (g', c', res) -> cs_input c' = next_counters cfg x res (cs_input c).
+Proof.
+  intros cfg g c now clk x g' c' res H E.
+  pose proof (process_record_input cfg g c now clk x (cs_input c) H) as Hi.
+  replace (with_input c (cs_input c)) with c in Hi by (destruct c; reflexivity).
+  rewrite E in Hi. inversion Hi as [Hc]. rewrite Hc at 1. reflexivity.
 Qed.
 
 (* a malformed record changes the input counters of its connection and nothing else *)
@@ -780,25 +841,61 @@ Proof.
   destruct (extract_keys _ _) as [okeys| |]; cbn [pbind] in E; try discriminate.
   destruct (get_or_create _ _ _ _) as [[[g1 c2] idx]| |]; cbn [pbind] in E; try discriminate.
   destruct (nth_error _ _) as [pi|]; [|discriminate].
-  unfold worker_step in E.
-  destruct (extract_keys _ _) as [mk| |]; cbn [pbind] in E; try discriminate.
-  destruct (select_metric_key_set _ _ _) as [pi1| |]; cbn [pbind] in E; try discriminate.
-  destruct (run_xtfs O _ _ _ _) as [[[[t2 cn2] p2] pass2]| |]; cbn [pbind] in E; try discriminate.
-  destruct pass2; [|discriminate].
-  destruct (run_outputs _ _ _ _ _ _ _) as [[[pk st] ch]| |]; cbn [pbind] in E; discriminate.
+  destruct (worker_step O cfg pi idx clk p1) as [[pi' res']| |] eqn:Ew; cbn [pbind] in E; try discriminate.
+  destruct (worker_step_res _ _ _ _ _ _ _ Ew) as [_ Hne]. inversion E; subst. contradiction.
 Qed.
 
-(* the fold: dropping the malformed records from the sequence changes nothing but the input counters *)
-Lemma process_records_filter : forall cfg inputs g c now clk g1 c1 rs cnt,
+(* the counters of the run with the malformed records (A) and of the run without them (B): equal but for k dropped
+   records of kb bytes *)
+Definition cnt_rel (k kb : N) (A B : Ps.counters) : Prop :=
+  (Ps.passed_n A = Ps.passed_n B /\ Ps.passed_bytes A = Ps.passed_bytes B /\
+   Ps.overflow_n A = Ps.overflow_n B /\ Ps.overflow_bytes A = Ps.overflow_bytes B /\
+   Ps.dropped_n A = Ps.dropped_n B + k /\ Ps.dropped_bytes A = Ps.dropped_bytes B + kb)%N.
+
+Lemma cnt_rel_next : forall cfg x res k kb A B,
+  cnt_rel k kb A B -> cnt_rel k kb (next_counters cfg x res A) (next_counters cfg x res B).
+Proof.
+  intros cfg x res k kb A B (h1 & h2 & h3 & h4 & h5 & h6). unfold next_counters.
+  set (d := snd (Ps.parse (c_parser cfg) Ps.counters_zero x)).
+  assert (Hadd : cnt_rel k kb (ParserProofs.counters_add A d) (ParserProofs.counters_add B d)).
+  { unfold cnt_rel, ParserProofs.counters_add. cbn [Ps.passed_n Ps.passed_bytes Ps.dropped_n Ps.dropped_bytes Ps.overflow_n Ps.overflow_bytes].
+    repeat split; lia. }
+  destruct res; try exact Hadd.
+  destruct (fst (Ps.parse (c_parser cfg) Ps.counters_zero x)) as [[r|]| |]; try exact Hadd.
+  destruct Hadd as (a1 & a2 & a3 & a4 & a5 & a6). unfold cnt_rel, pass_to_drop.
+  cbn [Ps.passed_n Ps.passed_bytes Ps.dropped_n Ps.dropped_bytes Ps.overflow_n Ps.overflow_bytes].
+  rewrite a1, a2. repeat split; try lia; assumption.
+Qed.
+
+Lemma cnt_rel_malformed : forall cfg x k kb A B, ParserProofs.cfg_ok (c_parser cfg) -> malformed cfg x = true ->
+  cnt_rel k kb A B ->
+  cnt_rel (k + 1) (kb + N.of_nat (length x))
+          (ParserProofs.counters_add A (snd (Ps.parse (c_parser cfg) Ps.counters_zero x))) B.
+Proof.
+  intros cfg x k kb A B H Hm (h1 & h2 & h3 & h4 & h5 & h6).
+  destruct (C09.C09_accounting (c_parser cfg) Ps.counters_zero x H) as (res & d & Ep & Hacc).
+  unfold malformed in Hm. rewrite Ep in *. cbn [fst snd] in *. destruct res as [r|]; [discriminate|].
+  destruct Hacc as (a1 & a2 & a3 & a4 & a5 & a6). cbn in a1, a2, a3, a4, a5, a6.
+  unfold cnt_rel, ParserProofs.counters_add. cbn [Ps.passed_n Ps.passed_bytes Ps.dropped_n Ps.dropped_bytes Ps.overflow_n Ps.overflow_bytes].
+  repeat split; lia.
+Qed.
+
+(* the fold: dropping the malformed records from the sequence changes nothing but the input counters, and those
+   exactly by the malformed records *)
+Lemma process_records_filter : forall cfg inputs g c now clk g1 c1 rs cnt k kb,
   ParserProofs.cfg_ok (c_parser cfg) ->
   process_records O cfg g c now clk inputs = Ok (g1, c1, rs) ->
+  cnt_rel k kb (cs_input c) cnt ->
   exists cnt',
     process_records O cfg g (with_input c cnt) now clk (filter (fun x => negb (malformed cfg x)) inputs)
     = Ok (g1, with_input c1 cnt', filter (fun r => negb (is_drop_parse r)) rs) /\
-    map is_drop_parse rs = map (malformed cfg) inputs.
+    map is_drop_parse rs = map (malformed cfg) inputs /\
+    cnt_rel (k + N.of_nat (length (filter (malformed cfg) inputs)))
+            (kb + SyslogSpec.sum_lengths (filter (malformed cfg) inputs)) (cs_input c1) cnt'.
 Proof.
-  intros cfg inputs. induction inputs as [|x inputs IH]; intros g c now clk g1 c1 rs cnt H E.
-  - cbn in E. inversion E; subst. exists cnt. split; reflexivity.
+  intros cfg inputs. induction inputs as [|x inputs IH]; intros g c now clk g1 c1 rs cnt k kb H E Hrel.
+  - cbn in E. inversion E; subst. exists cnt. split; [reflexivity|]. split; [reflexivity|].
+    cbn. rewrite !N.add_0_r. exact Hrel.
   - cbn [process_records] in E.
     destruct (process_record O cfg g c now clk x) as [[[ga ca] res]| |] eqn:E1; cbn [pbind] in E; try discriminate.
     destruct (process_records O cfg ga ca now clk inputs) as [[[gb cb] rs']| |] eqn:E2; cbn [pbind] in E; try discriminate.
@@ -807,38 +904,20 @@ Proof.
     + (* malformed: skipped in the filtered run *)
       rewrite (process_record_malformed cfg g c now clk x H Hm) in E1. inversion E1; subst ga ca res. clear E1.
       cbn [is_drop_parse negb].
-      destruct (IH g (with_input c _) now clk gb cb rs' cnt H E2) as (cnt' & Ef & Em).
+      destruct (IH g (with_input c _) now clk gb cb rs' cnt (k + 1)%N (kb + N.of_nat (length x))%N H E2
+                  (cnt_rel_malformed cfg x k kb (cs_input c) cnt H Hm Hrel)) as (cnt' & Ef & Em & Hr).
       change (with_input (with_input c ?a) cnt) with (with_input c cnt) in Ef.
-      exists cnt'. split; [exact Ef|]. f_equal. exact Em.
+      exists cnt'. split; [exact Ef|]. split; [f_equal; exact Em|].
+      cbn [length SyslogSpec.sum_lengths fold_right]. fold (SyslogSpec.sum_lengths (filter (malformed cfg) inputs)).
+      destruct Hr as (r1 & r2 & r3 & r4 & r5 & r6). unfold cnt_rel. repeat split; try assumption; lia.
     + (* well-formed: the same step in both runs *)
       pose proof (process_record_wellformed cfg g c now clk x ga ca res Hm H E1) as Hnd.
       rewrite Hnd. cbn [negb process_records].
       rewrite (process_record_input cfg g c now clk x cnt H). rewrite E1. cbn [pbind].
-      destruct (IH ga ca now clk gb cb rs' (ParserProofs.counters_add cnt (snd (Ps.parse (c_parser cfg) Ps.counters_zero x))) H E2)
-        as (cnt' & Ef & Em).
-      rewrite Ef. cbn [pbind]. exists cnt'. split; [reflexivity|]. f_equal. exact Em.
-Qed.
-
-(* the input counters after a sequence: the parser's own fold (C09) *)
-Lemma process_records_counters : forall cfg inputs g c now clk g1 c1 rs,
-  ParserProofs.cfg_ok (c_parser cfg) ->
-  process_records O cfg g c now clk inputs = Ok (g1, c1, rs) ->
-  cs_input c1 = ParserProofs.final_counters (c_parser cfg) (cs_input c) inputs.
-Proof.
-  intros cfg inputs. induction inputs as [|x inputs IH]; intros g c now clk g1 c1 rs H E.
-  - cbn in E. inversion E; subst. reflexivity.
-  - cbn [process_records] in E.
-    destruct (process_record O cfg g c now clk x) as [[[ga ca] res]| |] eqn:E1; cbn [pbind] in E; try discriminate.
-    destruct (process_records O cfg ga ca now clk inputs) as [[[gb cb] rs']| |] eqn:E2; cbn [pbind] in E; try discriminate.
-    inversion E; subst g1 c1 rs. clear E.
-    rewrite (IH ga ca now clk gb cb rs' H E2). unfold ParserProofs.final_counters. cbn [fold_left]. f_equal.
-    (* cs_input ca = snd (parse ...) *)
-    unfold process_record in E1.
-    destruct (Ps.parse (c_parser cfg) (cs_input c) x) as [[[r|]| |] cnt'] eqn:Ep; try discriminate.
-    + cbn [snd]. pose proof (process_parsed_input cfg g c now clk r cnt') as Hi. rewrite E1 in Hi.
-      destruct (process_parsed O cfg g c now clk r) as [[[g' c'] res']| |]; try discriminate.
-      inversion Hi; subst. reflexivity.
-    + inversion E1; subst. reflexivity.
+      pose proof (process_record_counters cfg g c now clk x ga ca res H E1) as Hca.
+      destruct (IH ga ca now clk gb cb rs' (next_counters cfg x res cnt) k kb H E2) as (cnt' & Ef & Em & Hr).
+      { rewrite Hca. apply cnt_rel_next. exact Hrel. }
+      rewrite Ef. cbn [pbind]. exists cnt'. split; [reflexivity|]. split; [f_equal; exact Em|exact Hr].
 Qed.
 
 End Stream.
@@ -850,47 +929,6 @@ Section Neighbours.
 Variable O : T.oracles.
 
 Definition good (cfg : config) (x : bytes) : bool := negb (malformed cfg x).
-
-Lemma final_counters_cons : forall pcfg cnt x l, ParserProofs.cfg_ok pcfg ->
-  ParserProofs.final_counters pcfg cnt (x :: l) =
-  ParserProofs.final_counters pcfg (ParserProofs.counters_add cnt (snd (Ps.parse pcfg Ps.counters_zero x))) l.
-Proof.
-  intros pcfg cnt x l H. unfold ParserProofs.final_counters. cbn [fold_left].
-  rewrite (C09.C09_history_independent pcfg cnt x H). reflexivity.
-Qed.
-
-(* the counters of the two runs: equal but for the dropped records and bytes of the malformed records *)
-Lemma counters_filter : forall cfg ls cnt cnt', ParserProofs.cfg_ok (c_parser cfg) ->
-  let A := ParserProofs.final_counters (c_parser cfg) cnt ls in
-  let B := ParserProofs.final_counters (c_parser cfg) cnt' (filter (good cfg) ls) in
-  let bad := filter (malformed cfg) ls in
-  (Ps.passed_n A + Ps.passed_n cnt' = Ps.passed_n B + Ps.passed_n cnt /\
-   Ps.passed_bytes A + Ps.passed_bytes cnt' = Ps.passed_bytes B + Ps.passed_bytes cnt /\
-   Ps.overflow_n A + Ps.overflow_n cnt' = Ps.overflow_n B + Ps.overflow_n cnt /\
-   Ps.overflow_bytes A + Ps.overflow_bytes cnt' = Ps.overflow_bytes B + Ps.overflow_bytes cnt /\
-   Ps.dropped_n A + Ps.dropped_n cnt' = Ps.dropped_n B + Ps.dropped_n cnt + N.of_nat (length bad) /\
-   Ps.dropped_bytes A + Ps.dropped_bytes cnt' = Ps.dropped_bytes B + Ps.dropped_bytes cnt + SyslogSpec.sum_lengths bad)%N.
-Proof.
-  intros cfg ls. induction ls as [|x ls IH]; intros cnt cnt' H.
-  - cbn. repeat split; lia.
-  - cbn zeta. rewrite (final_counters_cons _ cnt x ls H). cbn [filter]. change (good cfg x) with (negb (malformed cfg x)).
-    destruct (malformed cfg x) eqn:Hm; cbn [negb].
-    + (* malformed: its increment is one dropped record of its length *)
-      destruct (C09.C09_accounting (c_parser cfg) Ps.counters_zero x H) as (res & d & Ep & Hacc).
-      unfold malformed in Hm. rewrite Ep in *. cbn [fst snd] in *. destruct res as [r|]; [discriminate|].
-      destruct Hacc as (a1 & a2 & a3 & a4 & a5 & a6). cbn in a1, a2, a3, a4, a5, a6.
-      specialize (IH (ParserProofs.counters_add cnt d) cnt' H). cbn zeta in IH.
-      destruct IH as (i1 & i2 & i3 & i4 & i5 & i6).
-      unfold ParserProofs.counters_add in *. cbn [Ps.passed_n Ps.passed_bytes Ps.dropped_n Ps.dropped_bytes Ps.overflow_n Ps.overflow_bytes] in *.
-      cbn [length SyslogSpec.sum_lengths fold_right]. fold (SyslogSpec.sum_lengths (filter (malformed cfg) ls)).
-      repeat split; lia.
-    + rewrite (final_counters_cons _ cnt' x _ H).
-      specialize (IH (ParserProofs.counters_add cnt (snd (Ps.parse (c_parser cfg) Ps.counters_zero x)))
-                     (ParserProofs.counters_add cnt' (snd (Ps.parse (c_parser cfg) Ps.counters_zero x))) H).
-      cbn zeta in IH. destruct IH as (i1 & i2 & i3 & i4 & i5 & i6).
-      unfold ParserProofs.counters_add in *. cbn [Ps.passed_n Ps.passed_bytes Ps.dropped_n Ps.dropped_bytes Ps.overflow_n Ps.overflow_bytes] in *.
-      repeat split; lia.
-Qed.
 
 Lemma Forall_filter : forall (A : Type) (P : A -> Prop) f (l : list A), Forall P l -> Forall P (filter f l).
 Proof.
@@ -933,18 +971,14 @@ Proof.
   unfold conn_run, conn_records. rewrite R1, R2. cbn [pbind].
   destruct (process_records_total O cfg ls g (new_conn cfg) now clk H Hg (cinv_new_conn O cfg g H))
     as (g' & c1 & rs1 & E1 & _).
-  destruct (process_records_filter O cfg ls g (new_conn cfg) now clk g' c1 rs1 Ps.counters_zero (ok_parser O cfg H) E1)
-    as (cnt' & E2 & Em).
+  destruct (process_records_filter O cfg ls g (new_conn cfg) now clk g' c1 rs1 Ps.counters_zero 0%N 0%N (ok_parser O cfg H) E1)
+    as (cnt' & E2 & Em & Hr).
+  { unfold cnt_rel. cbn. repeat split; reflexivity. }
   change (with_input (new_conn cfg) Ps.counters_zero) with (new_conn cfg) in E2.
   exists g', c1, (with_input c1 cnt'), rs1.
   split; [exact E1|]. split; [exact E2|]. split; [exact Em|].
   split; [reflexivity|]. split; [reflexivity|]. split; [reflexivity|].
-  pose proof (process_records_counters O cfg ls g (new_conn cfg) now clk g' c1 rs1 (ok_parser O cfg H) E1) as K1.
-  pose proof (process_records_counters O cfg _ g (new_conn cfg) now clk g' _ _ (ok_parser O cfg H) E2) as K2.
-  cbn [with_input cs_input new_conn] in K1, K2 |- *. rewrite K1, K2.
-  pose proof (counters_filter cfg ls Ps.counters_zero Ps.counters_zero (ok_parser O cfg H)) as C. cbn zeta in C.
-  cbn [Ps.counters_zero Ps.passed_n Ps.passed_bytes Ps.dropped_n Ps.dropped_bytes Ps.overflow_n Ps.overflow_bytes] in C.
-  unfold good in *. cbn zeta. lia.
+  cbn [with_input cs_input]. cbn zeta. rewrite !N.add_0_l in Hr. exact Hr.
 Qed.
 
 End Neighbours.
